@@ -217,8 +217,13 @@ pub fn exec(w: &mut World, op: &Value) -> bool {
                 let pos = f.get("pos").and_then(|v| v.as_u64()).unwrap_or(0) as u32;
                 crate::heap::arm_fault(at, pos);
             }
-            w.call(&kind, b, &g, cont, false, None);
+            w.call(&kind, b, &g, cont, g == "real", None);
             w.observe();
+            true
+        }
+        "adjust_debt" => {
+            let x = op.get("xQ").and_then(|v| v.as_i64()).unwrap_or(0);
+            w.adjust_debt(x);
             true
         }
         "start_sweeping" => {
@@ -286,9 +291,12 @@ pub fn diff_final(real: &Value, model: &Value) -> Vec<String> {
         return d;
     }
     for k in ["phase", "obs", "rootNT", "count", "gray", "grayAgain", "sweep", "sweepPrev"] {
-        if real.get(k) != model.get(k) {
+        if model.get(k).is_some() && real.get(k) != model.get(k) {
             d.push(k.to_string());
         }
+    }
+    if model.get("list").is_none() {
+        return d;
     }
     let strip = |v: &Value| -> Vec<Value> {
         v.as_array()
@@ -302,6 +310,7 @@ pub fn diff_final(real: &Value, model: &Value) -> Vec<String> {
 }
 
 pub struct ReplayResult {
+    pub debt_drift: Option<(usize, i64, i64)>, // first op whose debt/count differs from the model's: (op index, model, real)
     pub ops_done: usize,
     pub skipped: usize,
     pub diverged: bool,
@@ -317,10 +326,26 @@ pub fn replay(beh: &Value, beh_id: usize, epilogue: &str) -> ReplayResult {
     ev!("{{\"ev\":\"reset\",\"beh\":{},\"epilogue\":\"{}\"}}", beh_id, epilogue);
     let mut w = World::new(0, 1);
     let mut skipped = 0;
+    let mut debt_drift = None;
+    if let Some(p) = beh.get("pacing") {
+        let q = |k: &str| p.get(k).and_then(|v| v.as_i64()).unwrap_or(0);
+        w.set_pacing_q(q("sf"), q("ms"), q("mf"), q("tf"), q("kf"), q("df"), q("ff"));
+    }
     let ops = beh.get("ops").and_then(|v| v.as_array()).cloned().unwrap_or_default();
-    for op in &ops {
+    for (k, op) in ops.iter().enumerate() {
         if !exec(&mut w, op) {
             skipped += 1;
+        }
+        // pacing configurations: the model predicts the debt (x16) and the count after every operation
+        if let (Some(d), Some(n)) = (op.get("d").and_then(|v| v.as_i64()), op.get("n").and_then(|v| v.as_i64())) {
+            if debt_drift.is_none() && w.alive() {
+                let (rd, rn) = (w.debt_q_pub(), w.metrics.total_gc_count() as i64);
+                if rd != d {
+                    debt_drift = Some((k, d, rd));
+                } else if rn != n {
+                    debt_drift = Some((k, n, rn));
+                }
+            }
         }
     }
     let real_final = snapshot(&w);
@@ -343,5 +368,5 @@ pub fn replay(beh: &Value, beh_id: usize, epilogue: &str) -> ReplayResult {
         }
     }
     ev!("{{\"ev\":\"end\",\"beh\":{},\"outstanding\":{},\"overflow\":{}}}", beh_id, ALLOC.outstanding(), ALLOC.overflowed());
-    ReplayResult { ops_done: ops.len(), skipped, diverged: w.st.diverged, drift, real_final }
+    ReplayResult { debt_drift, ops_done: ops.len(), skipped, diverged: w.st.diverged, drift, real_final }
 }
